@@ -549,6 +549,23 @@ def run(ctx):
                     for k in (5, 6, 7):
                         bb[k] = rng.below(256)
             add_dec(c["name"], bytes(bb), "reserved-set", orig=b)
+        elif r in (6, 7) and c["name"].startswith("PDUv2"):
+            # EVERY batched sub-PDU gets its own arbitrary RFU bits; Tx: arbitrary spare octets in the main part and in every sub-PDU
+            bb = bytearray(b)
+            tx = c["name"] == "PDUv2Tx"
+            bk = "hard-bits" if tx else "soft-bits"
+            if tx:
+                for k in (5, 6, 7):
+                    bb[k] = rng.below(256)
+            off = len(layout(c["name"], dict(c["d"], bpdu=[])))
+            for sp in c["d"]["bpdu"]:
+                bb[off] = (bb[off] & 0x07) | (rng.below(32) << 3)
+                if tx:
+                    for k in (5, 6, 7):
+                        bb[off + k] = rng.below(256)
+                off += 8 + len(sp.get(bk, b""))
+            assert off == len(b)
+            add_dec(c["name"], bytes(bb), "reserved-set-all", orig=b, chk=rng.chance(3, 4))
         elif r == 5 and c["name"].startswith("PDUv2") and c.get("nsub"):
             # reserved bits of the first batched sub-PDU: RFU(5) of its first octet, Tx spare octets
             off = len(layout(c["name"], dict(c["d"], bpdu=[])))
@@ -644,7 +661,7 @@ def run(ctx):
                             fail("c17-nope-no-burst", "NOPE indication decoded with a burst", c)
                         if x["nope"] == 0 and len(x[bk]) != BURST_LEN.get(x["mod"]):
                             fail("c17-burst-len", "burst length is not the table entry of the MOD bits", c)
-        elif tag in ("reserved-set", "reserved-set-sub"):
+        elif tag in ("reserved-set", "reserved-set-sub", "reserved-set-all"):
             o_orig, _ = real_decode(c["name"], c["orig"], tab, c["chk"])
             ctx.evaluations += 1
             if o != o_orig:
